@@ -290,6 +290,34 @@ func c28Mutate(r *rand.Rand, b []byte) []byte {
 	return out
 }
 
+// time values for X-Honeycomb-Event-Time and the batch "time" field: integer-looking strings of length 0..12 (the
+// code switches on len == 10 / len > 10), signs, hex / octal / underscore forms ParseInt(s, 0, 64) accepts, spaces,
+// floats, RFC3339 and junk
+var c28TimePool = []string{"", "0", "7", "-5", "+3", "42", "0x1F", "0X1f", "0b101", "0o17", "017", "1_0", "123456789", "-12345678",
+	"1234567890", "-123456789", "0x12345678", "12345678901", "-1234567890", "123456789012", "1535589382641", "1535589382641123",
+	"1535589382641123456", "9223372036854775807", "-9223372036854775808", "9223372036854775808", " 7", "7 ", "1.5", "-0.5", "1e3", "1e400",
+	".5", "5.", "0x1p-2", "NaN", "Inf", "abc", "2018-08-30T00:36:22.641Z", "2018-08-30T00:36:22+25:00", "0000-00-00T00:00:00Z"}
+
+// c28TimeProbes: otherwise well-formed requests that carry an odd time value in the header / in a batch entry
+func c28TimeProbes(r *rand.Rand, n int) []c28Req {
+	var out []c28Req
+	for i := 0; i < n; i++ {
+		t := c28TimePool[r.Intn(len(c28TimePool))]
+		router := []string{"incoming", "peer"}[r.Intn(2)]
+		if i%2 == 0 {
+			out = append(out, c28Req{Router: router, Method: "POST", Path: "/1/events/ds",
+				Hdr:  map[string]string{"X-Honeycomb-Team": crossLegacyKey, "Content-Type": "application/json", "X-Honeycomb-Event-Time": t},
+				Body: c28B64([]byte(`{"trace.trace_id":"t1","a":1}`))})
+		} else {
+			tb, _ := json.Marshal(t)
+			out = append(out, c28Req{Router: router, Method: "POST", Path: "/1/batch/ds",
+				Hdr:  map[string]string{"X-Honeycomb-Team": crossLegacyKey, "Content-Type": "application/json"},
+				Body: c28B64([]byte(`[{"time":` + string(tb) + `,"samplerate":1,"data":{"trace.trace_id":"t2","x":1}}]`))})
+		}
+	}
+	return out
+}
+
 func c28GenReq(r *rand.Rand) c28Req {
 	q := c28Req{Router: []string{"incoming", "incoming", "peer"}[r.Intn(3)], Method: "POST", Hdr: map[string]string{}}
 	if r.Intn(12) == 0 {
@@ -477,6 +505,7 @@ func c28Gen(r *rand.Rand, tier string, i int) any {
 		if tier == "thorough" {
 			n = 20 + r.Intn(40)
 		}
+		in.Reqs = append(in.Reqs, c28TimeProbes(r, 8)...)
 		for k := 0; k < n; k++ {
 			if r.Intn(3) == 0 {
 				in.Reqs = append(in.Reqs, c28GenGrpc(r))
@@ -815,7 +844,9 @@ func c28Child(raw json.RawMessage) (Case, error) {
 				MaxSendMsgSize: config.MemorySize(15 << 20), MaxRecvMsgSize: config.MemorySize(15 << 20)}
 		}
 		cfg.GetSamplerTypeVal = &config.DeterministicSamplerConfig{SampleRate: 1}
-		n, err := crossStartNode(crossNodeOpts{Addr: "http://node-a:8081", PeerList: []string{"http://node-a:8081", "http://node-b:8081"}, Net: mn, Cfg: cfg,
+		// the generic 500 body does not say that a panic was caught; the router's error log does
+		rlog := &logger.MockLogger{}
+		n, err := crossStartNode(crossNodeOpts{Addr: "http://node-a:8081", PeerList: []string{"http://node-a:8081", "http://node-b:8081"}, Net: mn, Cfg: cfg, RouterLog: rlog,
 			Collector:  &crossRecCollector{Node: "a", mu: &mu, log: &col},
 			Upstream:   &crossRecTx{Node: "a#up", mu: &mu, log: &hops},
 			WrapPeerTx: func(transmitT) transmitT { return &crossRecTx{Node: "a#peer", mu: &mu, log: &hops} }})
@@ -848,6 +879,11 @@ func c28Child(raw json.RawMessage) (Case, error) {
 			}
 			res.Statuses = append(res.Statuses, w.Code)
 			if w.Code == 500 && strings.Contains(w.Body.String(), "caught panic") {
+				res.Caught++
+			}
+		}
+		for _, e := range rlog.Events {
+			if e != nil && fmt.Sprint(e.Fields["error.msg"]) == "caught panic" {
 				res.Caught++
 			}
 		}
